@@ -63,6 +63,7 @@ static Verdict judge(const Case &c) {
 	std::string tag = "[" + c.form + (c.iso.empty() ? "" : " " + c.iso) + " = " + std::to_string(c.limit) + " s] ";
 	if (c.form == "due") {
 		// an execution request with a DUE time, as echsx documents it
+		if (c.limit == 0) { struct timespec ts; clock_gettime(CLOCK_REALTIME, &ts); if (ts.tv_nsec > 300000000L) usleep((useconds_t)((1000000000L - ts.tv_nsec) / 1000 + 20000)); }   // due this very second: start early in a second so that the request arrives within it
 		time_t due = time(nullptr) + c.limit; std::string ds = civil::fmt_ical((int64_t)due * 1000, false);
 		std::string req = "BEGIN:VCALENDAR\nVERSION:2.0\nBEGIN:VTODO\nUID:c14due\nSUMMARY:true\nX-ECHS-SETUID:0\nX-ECHS-SETGID:0\nX-ECHS-SHELL:/bin/sh\nLOCATION:/\nDUE:" + ds + "\nX-ECHS-UMASK:022\nX-ECHS-MAIL-RUN:0\nX-ECHS-MAIL-OUT:0\nX-ECHS-MAIL-ERR:0\nORGANIZER:echse\nEND:VTODO\nEND:VCALENDAR\n";
 		Verdict v = run_executor(c, req, c.limit - 2, c.limit, tag); v.classes.push_back("form/due"); return v;
@@ -108,15 +109,15 @@ void prop_gen(Ctx &c) {
 	using rgen::R;
 	rc::check("C14", [&]() {
 		if (c.shrink_exhausted()) return;
-		Case cs; int f = *R(0, 9); cs.form = f < 3 ? "dtend" : f < 8 ? "dura" : "due"; cs.longjob = *R(0, 3) != 0; cs.nocc = *R(1, 3);
+		Case cs; int f = *R(0, 9); cs.form = f < 3 ? "dtend" : f < 8 ? "dura" : "due"; cs.longjob = *R(0, 3) != 0; cs.nocc = *R(1, 4);
 		if (cs.form == "dura") {
-			int shape = *R(0, 7); long w = 0, d = 0, h = 0, m = 0, s = 0;
+			int shape = *R(0, 8); long w = 0, d = 0, h = 0, m = 0, s = 0;
 			switch (shape) { case 0: s = *R(1, 59); break; case 1: m = *R(1, 90); break; case 2: h = *R(1, 30); break; case 3: d = *R(1, 9); break; case 4: w = *R(1, 3); break;
 			case 5: h = *R(0, 23); m = *R(0, 59); s = *R(1, 59); break; case 6: d = *R(1, 6); h = *R(0, 23); m = *R(0, 59); s = *R(0, 59); break; default: s = *R(60, 100000); break; }
 			cs.limit = w * 604800 + d * 86400 + h * 3600 + m * 60 + s;
 			cs.iso = "P"; if (w) cs.iso += std::to_string(w) + "W"; if (d) cs.iso += std::to_string(d) + "D"; if (h || m || s) { cs.iso += "T"; if (h) cs.iso += std::to_string(h) + "H"; if (m) cs.iso += std::to_string(m) + "M"; if (s) cs.iso += std::to_string(s) + "S"; }
-		} else if (cs.form == "dtend") { int k = *R(0, 3); cs.limit = k == 0 ? *R(1, 59) : k == 1 ? *R(60, 7200) : k == 2 ? *R(7200, 172800) : *R(1, 1500000); }
-		else { int k = *R(0, 4); cs.limit = k == 0 ? -*R(0, 5000) : k == 1 ? *R(3, 60) : *R(60, 500000); }
+		} else if (cs.form == "dtend") { int k = *R(0, 4); cs.limit = k == 0 ? *R(1, 59) : k == 1 ? *R(60, 7200) : k == 2 ? *R(7200, 172800) : *R(1, 1500000); }
+		else { int k = *R(0, 5); cs.limit = k == 0 ? -*R(0, 5000) : k == 1 ? *R(3, 60) : k == 4 ? 0 : *R(60, 500000); }   // 0: due in the very second the request arrives
 		std::string txt = ctext(cs);
 		Verdict v = judge(cs);
 		c.st.record(txt, v);
